@@ -37,14 +37,25 @@ def trace_tables(f, d):
     path = os.path.join(gd, "TraceTables.tla")
     with open(path, "w") as fh:
         fh.write("----------------------------- MODULE TraceTables -----------------------------\n"
+                 "EXTENDS Json\n"
                  "TrWords == %s\nTrNames == %s\n"
+                 "TrJ == JsonDeserialize(\"tables.json\")\n"
+                 "TrByCps == [on |-> TRUE, names |-> TrJ.names, nameKeys |-> DOMAIN TrJ.names, "
+                 "words |-> TrJ.words, wordKeys |-> DOMAIN TrJ.words]\n"
                  "=============================================================================\n" % (seq(words), seq(names)))
-    return {"TraceTables.tla": path}
+
+    def key(cs):
+        return "<<" + ", ".join(str(c) for c in cs) + ">>"      # = TLC's ToString of the tuple
+    jpath = os.path.join(gd, "tables.json")
+    with open(jpath, "w") as fh:
+        json.dump({"names": {key(v): k for k, v in names.items()},
+                   "words": {key(v): k for k, v in words.items()}}, fh)
+    return {"TraceTables.tla": path, "tables.json": jpath}
 
 
 vlib.TRACE_PREP["Trace_Marshal"] = trace_tables
 MARSHAL_CFG = ("CONSTANT PathTable <- MCPathTable\nCONSTANT NameTable <- TrNames\nCONSTANT IdTable <- TrNames\n"
-               "CONSTANT WordTable <- TrWords\nCONSTANT EnvStride = %d\n")
+               "CONSTANT WordTable <- TrWords\nCONSTANT ByCps <- TrByCps\nCONSTANT EnvStride = %d\n")
 vlib.TRACE_CFG["Trace_Marshal"] = MARSHAL_CFG % 6
 
 
@@ -112,4 +123,115 @@ def run_C08(ctx):
     add_gen_exec_validate(ctx, "marshal", "exprs", "MC_MarshalExpr", ["mc/MC_MarshalExpr.tla"], cfg=GEN_CFG + consts,
                           min_cases=1000, timeout=7200)
     add_m3(ctx, "marshal", "random", "marshal", 1500 if q else 40000)
+    return vlib.finish(ctx, confirm_all)
+
+
+# ====================================================================== C12 text forms
+
+TEXT_CFG = ("CONSTANT PathTable <- MCPathTable\nCONSTANT NameTable <- TrNames\nCONSTANT IdTable <- TrNames\n"
+            "CONSTANT WordTable <- TrWords\nCONSTANT ByCps <- TrByCps\n")
+vlib.TRACE_PREP["Trace_Text"] = trace_tables
+vlib.TRACE_CFG["Trace_Text"] = TEXT_CFG
+
+
+def _obs3(o):
+    ways = [(w, pretty.so(o[w]).strip() if isinstance(o.get(w), dict) else "?") for w in ("parse", "json", "eval") if w in o]
+    if len(set(s for _, s in ways)) == 1:
+        return ways[0][1]
+    return " ".join("%s=%s" % ws for ws in ways)
+
+
+def describe_parsetext(ev, obs, entry):
+    exp = (ev.get("exp") or [{}])[0]
+    o = (obs or [{}])[0] if isinstance(obs, list) else {}
+    return "parse %s('%s') => observed %s, specified %s" % (ev.get("kind"), cps((ev.get("texts") or [[]])[0]), _obs3(o), pretty.so(exp).strip())
+
+
+def describe_construct(ev, obs, entry):
+    exp = (ev.get("exp") or [{}])[0]
+    o = (obs or [{}])[0] if isinstance(obs, list) else {}
+    if ev.get("fn") == "NewDecimal":
+        call = "NewDecimal(%d, %s)" % (pretty.num(ev["is"][0]), ev["e"])
+    else:
+        f = ev["fs"][0]
+        p = f["p"]
+        call = "NewDecimalFromFloat(%s)" % ({9999: "NaN", 9998: "+Inf", 9997: "-Inf"}.get(p) or "%d * 2^%d" % (pretty.num(f["m"]), p))
+    got = " ".join("%s=%s" % (w, pretty.so(o[w]).strip()) for w in ("new", "fromInt") if isinstance(o.get(w), dict))
+    return "construct %s => observed %s, exact result %s" % (call, got, pretty.so(exp).strip())
+
+
+KINDS["parsetext"] = dict(module=None, describe=describe_parsetext)
+KINDS["construct"] = dict(module=None, describe=describe_construct)
+
+
+def describe_textform(ev, obs, entry):
+    o = obs if isinstance(obs, dict) else {}
+    v = ev.get("v") or {}
+    why = entry.get("why") or []
+    exp = entry.get("exp") or {}
+    kind = {"dec": "decimal", "dt": "datetime", "dur": "duration", "ip": "ip", "ent": "entity"}.get(v.get("k"), v.get("k"))
+    parts = []
+    if "panic" in why or "cedar" not in o:
+        return "text form of %s => panic %s" % (pretty.sv(v), json.dumps(o)[:200])
+    if "parse" in why:
+        parts.append("parse %s('%s') => observed %s, specified %s" % (kind, cps(o.get("str")), pretty.so(o.get("reparsed") or {}).strip(), pretty.sv(v)))
+    if "print" in why:
+        parts.append("print %s %s => '%s', which the documented syntax reads as %s" % (kind, pretty.sv(v), cps(o.get("str")), pretty.so(exp.get("str") or {}).strip()))
+    if "cedar" in why or "evalback" in why:
+        parts.append("cedar text of %s => `%s`: the specification reads %s, the real parser and evaluator %s" % (
+            pretty.sv(v), cps(o.get("cedar"))[:300], pretty.so(exp.get("cedar") or {}).strip(), pretty.so(o.get("evalback") or {}).strip()))
+    return "; ".join(parts)
+
+
+KINDS["textform"] = dict(module="Trace_Text", shrink=None, describe=describe_textform)
+
+
+def add_table_m2(ctx, name, module, extra, cfg, min_cases, listkeys, timeout=7200):
+    """M2 for table rows (a list of inputs with a list of expected results): every differing index becomes its own
+    one-element case, so that confirmation and known-finding matching work per input"""
+    before = len(ctx.candidates)
+    st = vlib.generate_and_replay(ctx, name, module, cfg, extra, min_cases=min_cases, timeout=timeout)
+    ctx.candidates = ctx.candidates[:before]
+    for dd in vlib.read_ndjson(os.path.join(ctx.work, name + ".gen", "diffs.ndjson")):
+        c = dd["case"]
+        for i in dd["bad"]:
+            if i < 0:
+                raise Broken("%s: observation list has the wrong length" % name)
+            one = dict(c)
+            for k in listkeys:
+                if k in one:
+                    one[k] = [c[k][i]]
+            one["exp"] = [c["exp"][i]]
+            ctx.candidates.append(dict(kind=c["op"], stage=name, event=one))
+    return st
+
+
+@prop("C12")
+def run_C12(ctx):
+    ctx.rule = ("spec/TextForms.tla over CedarExt: the documented literal syntax of decimal / duration / datetime / ipaddr as parsers "
+                "over code points with exact multi-limb arithmetic and 64-bit range; ReadValue = the specification's lexer + expression "
+                "grammar + evaluator; exact constructors (NewDecimalExact = i * 10^e or failure). M2 (MC_TextForms): every literal of "
+                "the boundary lists, every literal assembled from components (sign x integer part x fraction; year x month-day x "
+                "time/offset incl. expanded years; unit subsets in and out of order with quantities at each unit's overflow edge; "
+                "v4/v6 forms x prefix suffixes) and every single-character deletion / replacement / insertion / transposition of 11 "
+                "representative literals, with the specified value or rejection, executed through types.Parse*, the typed __extn JSON "
+                "decoder and the constructor function in the evaluator; NewDecimal(i, e) for the boundary longs and the wrap-around "
+                "candidates ceil(k * 2^64 / 10^e) x every exponent -6..16, NewDecimalFromInt, NewDecimalFromFloat on exactly "
+                "representable doubles, the range edge, NaN and infinities. M3 (Trace_Text): values of every kind at their boundaries "
+                "and at random (entity ids, strings and record keys over the Unicode classes; thorough: every Unicode scalar value) "
+                "are printed by the real String() / MarshalCedar(); TLC reads the recorded code points with the specification's own "
+                "parsers and compares with the value, and checks what the real parsers / evaluator read back. distinct = distinct rows / events.")
+    ctx.assumptions = ["the literal syntaxes in CedarExt are a transcription of the Cedar documents (RFC 80 for datetime / duration)",
+                       "Unicode printability tables are not modelled: any escape spelling that unescapes to the character is accepted",
+                       "NewDecimalFromFloat is documented as approximate: exactness is demanded only where the product with 10^4 is "
+                       "exact in a double; at the range edge only 'error, not a wrapped value' is demanded",
+                       "the type part of an entity UID text is not validated by the statement's reading used here"]
+    q = ctx.quick
+    add_table_m2(ctx, "tables", "MC_TextForms", ["mc/MC_TextForms.tla"], GEN_CFG + SYNTAX_CONSTS, 40, ("texts", "is", "fs"))
+    add_m3(ctx, "textform", "forms", "text", 8000 if q else 160000)
+    if q:
+        add_m3(ctx, "textform", "unicode", "text", 1, params={"sweep": "0-0x10ffff", "step": "257"}, shards=2)
+    else:
+        vlib.LIGHT_JVM = False
+        add_m3(ctx, "textform", "unicode", "text", 1, params={"sweep": "0-0x10ffff", "step": "1"}, shards=vlib.MAX_SHARDS)
     return vlib.finish(ctx, confirm_all)
